@@ -450,3 +450,52 @@ func TestFixedC18TrafficSeenClosed(t *testing.T) {
 		px.Close()
 	}
 }
+
+// TestFixedC18UpdateOfUnknownRow: a Monitor call with the plain 'monitor' method is given up
+// by its context; the server has registered the monitor all the same and notifies it. The
+// first 'update' that modifies a row of that table (which the cache never received) made
+// the cache clone a nil model: the read loop panicked and took the process down. Now the
+// cache reports an inconsistency (the client drops the connection). The cache-level input
+// comes first (no process at stake), then the client-level history.
+func TestFixedC18UpdateOfUnknownRow(t *testing.T) {
+	w := c16World(t)
+	tc, err := cache.NewTableCache(w.DBModel, nil, nil)
+	if err != nil {
+		t.Fatal(err)
+	}
+	tb := w.S.Table("T0")
+	o, _ := tb.OvsRow(kit.Row{"n": kit.Scalar(kit.Int(4))}, false)
+	n, _ := tb.OvsRow(kit.Row{"n": kit.Scalar(kit.Int(5))}, false)
+	var pval interface{}
+	var uerr error
+	func() {
+		defer func() { pval = recover() }()
+		uerr = tc.Update(nil, ovsdb.TableUpdates{"T0": {kit.MkUUID(9): &ovsdb.RowUpdate{Old: &o, New: &n}}})
+	}()
+	if pval != nil || uerr == nil {
+		t.Fatalf("VERIF-FAIL property=C18 class=panic.notification: an update notification modifying a row the cache does not hold: panic %v, error %v (want an error)", pval, uerr)
+	}
+	e := newL2Env(t, w)
+	e.write(insT0(1, "one"))
+	c, _ := kit.NewClient(e.w, e.srv.Endpoint())
+	if err := c.Connect(context.Background()); err != nil {
+		t.Fatal(err)
+	}
+	defer c.Close()
+	if _, err := c.Monitor(context.Background(), c.NewMonitor(client.WithTable(w.NewModel("T2")))); err != nil {
+		t.Fatal(err)
+	}
+	ctx, cancel := context.WithCancel(context.Background())
+	cancel()
+	m := c.NewMonitor(client.WithTable(w.NewModel("T0")))
+	m.Method = ovsdb.MonitorRPC
+	if _, err := c.Monitor(ctx, m); err == nil {
+		t.Fatal("harness: Monitor with a cancelled context succeeded")
+	}
+	time.Sleep(50 * time.Millisecond)
+	e.write(kit.Op{Op: "update", Table: "T0", Where: []kit.Cond{}, Row: kit.Row{"n": kit.Scalar(kit.Int(7))}})
+	// the process is still here; the client either ignored the notification or dropped the connection
+	ectx, ecancel := context.WithTimeout(context.Background(), 2*time.Second)
+	defer ecancel()
+	_ = c.Echo(ectx)
+}
